@@ -202,10 +202,7 @@ pub fn scientific_literal(input: ParseString) -> ParseResult<RealNumber> {
     Ok((input, RealNumber::Float(base))) => {
       (input, base)
     }
-    _ => match integer_literal(input.clone()) {
-      Ok((input, RealNumber::TypedInteger((base,_))) ) => {
-        (input, (base, Token::default()))
-      }
+    _ => match untyped_integer(input.clone()) {
       Ok((input, RealNumber::Integer(base))) => {
         (input, (base, Token::default()))
       }
@@ -220,7 +217,7 @@ pub fn scientific_literal(input: ParseString) -> ParseResult<RealNumber> {
     Ok((input, RealNumber::Float(exponent))) => {
       (input, exponent)
     }
-    _ => match integer_literal(input.clone()) {
+    _ => match untyped_integer(input.clone()) {
       Ok((input, RealNumber::Integer(exponent))) => {
         (input, (exponent, Token::default()))
       }
